@@ -446,7 +446,23 @@ Qed.
 Lemma put_le16_bytes x : is_bytes (put_le16 x).
 Proof. unfold put_le16. repeat constructor; apply N.mod_lt; discriminate. Qed.
 
-(* the encoder's output is a framed stream *)
+
+(* Proof-engineering note: no cbn/simpl/change may expose [snd (_, checksum l)] or
+   [checksum] of an explicit cons list to the kernel conversion (the register is used
+   twice per byte: unfolding is exponential); pairs are projected by rewriting. *)
+Lemma header_marshal_wf sz proto prof dsz dt c : dt = fit_dtype ->
+  header_marshal (mk_header sz proto prof dsz dt c) =
+  (if sz =? 14 then hdr12 sz proto prof dsz ++ put_le16 (checksum (hdr12 sz proto prof dsz)) else hdr12 sz proto prof dsz,
+   checksum (hdr12 sz proto prof dsz)).
+Proof.
+  intros E. unfold header_marshal. rewrite header_bytes12_eq by exact E. reflexivity.
+Qed.
+
+Lemma snd_pair {A B} (a : A) (b : B) : snd (a, b) = b.
+Proof. reflexivity. Qed.
+Lemma fst_pair {A B} (a : A) (b : B) : fst (a, b) = a.
+Proof. reflexivity. Qed.
+
 Lemma encode_framed f be bs f' :
   wf_header (f_header f) = true ->
   encode f be = EOk (bs, f') ->
@@ -462,29 +478,37 @@ Lemma encode_framed f be bs f' :
      (h_size h = 14 /\ bs = framed 14 (h_proto h) (h_profile h) (put_le16 hc) data crc /\
       crc = checksum ((b12 ++ put_le16 hc) ++ data) /\ h_crc (f_header f') = hc)).
 Proof.
-  intros Hwf Henc Hlen. apply encode_shape in Henc as (data & Hdata & Hbs & Hcrc & Hds & Hc14 & _ & _ & _).
-  cbv zeta in *.
+  intros Hwf Henc Hlen. apply encode_shape in Henc as (data & Hdata & Hshape).
+  cbv zeta in Hshape. destruct Hshape as (Hbs & Hcrc & Hds & Hc14 & _).
   unfold wf_header in Hwf. apply andb_true_iff in Hwf as [Hwf Hdt]. apply andb_true_iff in Hwf as [Hsz Hpr].
   apply list_eqb_eq in Hdt. apply N.ltb_lt in Hpr.
   assert (Hdb : is_bytes data).
   { unfold enc_data in Hdata. destruct (ft_entry _) as [[[ok cn] descs]|]; [|discriminate]. destruct ok; [|discriminate].
     eapply encode_slots_bytes; eassumption. }
   assert (Hdl : N.of_nat (List.length data) < 4294967296).
-  { rewrite Hbs in Hlen. rewrite !app_length in Hlen. lia. }
-  rewrite (N.mod_small _ _ Hdl) in *.
-  unfold header_marshal in *. rewrite header_bytes12_eq in * by exact Hdt.
-  cbn [h_size h_proto h_profile h_dsize] in *. change c_headerSizeCRC with 14 in *.
-  remember (hdr12 (h_size (f_header f)) (h_proto (f_header f)) (h_profile (f_header f)) (N.of_nat (List.length data))) as b12 eqn:Eb.
-  assert (Hb12 : is_bytes b12).
-  { subst b12. apply hdr12_bytes; [|assumption]. apply orb_true_iff in Hsz as [E|E]; apply N.eqb_eq in E; lia. }
-  exists data, (checksum b12), (f_crc f'). cbv zeta. rewrite <- Eb.
-  split; [exact Hdata|]. split; [exact Hdb|]. split; [exact Hdl|]. split; [exact Hb12|]. split; [reflexivity|].
-  split; [reflexivity|]. split; [exact Hds|].
-  apply orb_true_iff in Hsz as [E|E]; apply N.eqb_eq in E.
-  - left. rewrite E in *. cbn [N.eqb Pos.eqb fst snd] in *. split; [reflexivity|].
-    split; [|exact Hcrc]. rewrite Hcrc, Hbs. unfold framed. rewrite <- Eb. rewrite app_nil_r. reflexivity.
-  - right. rewrite E in *. cbn [N.eqb Pos.eqb fst snd] in *. split; [reflexivity|].
-    split; [|split; [exact Hcrc|now apply Hc14]]. rewrite Hcrc, Hbs. unfold framed. rewrite <- Eb. reflexivity.
+  { rewrite Hbs in Hlen. rewrite !app_length in Hlen. clear - Hlen. lia. }
+  assert (Hs256 : h_size (f_header f) < 256).
+  { clear - Hsz. apply orb_true_iff in Hsz as [E|E]; apply N.eqb_eq in E; rewrite E; reflexivity. }
+  pose proof (hdr12_bytes _ (h_proto (f_header f)) (h_profile (f_header f)) (N.of_nat (List.length data)) Hs256 Hpr) as Hb12.
+  exists data. cbv zeta.
+  apply orb_true_iff in Hsz as [E|E]; apply N.eqb_eq in E; [clear Hc14|specialize (Hc14 E)].
+  - rewrite (N.mod_small _ _ Hdl) in Hbs, Hcrc, Hds.
+    rewrite (header_marshal_wf _ _ _ _ _ _ Hdt) in Hbs, Hcrc.
+    rewrite !fst_pair in Hbs, Hcrc.
+    assert (Eb : (h_size (f_header f) =? 14) = false) by (rewrite E; reflexivity).
+    rewrite Eb in Hbs, Hcrc.
+    eexists; eexists. split; [exact Hdata|]. split; [exact Hdb|]. split; [exact Hdl|]. split; [exact Hb12|]. split; [reflexivity|].
+    split; [reflexivity|]. split; [exact Hds|]. left. split; [exact E|].
+    split; [|exact Hcrc]. rewrite <- Hcrc in Hbs. unfold framed. rewrite app_nil_r. rewrite <- E at 1. exact Hbs.
+  - rewrite (N.mod_small _ _ Hdl) in Hbs, Hcrc, Hds, Hc14.
+    rewrite (header_marshal_wf _ _ _ _ _ _ Hdt) in Hbs, Hcrc, Hc14.
+    rewrite !fst_pair in Hbs, Hcrc. rewrite snd_pair in Hc14.
+    assert (Eb : (h_size (f_header f) =? 14) = true) by (rewrite E; reflexivity).
+    rewrite Eb in Hbs, Hcrc.
+    eexists; eexists. split; [exact Hdata|]. split; [exact Hdb|]. split; [exact Hdl|]. split; [exact Hb12|]. split; [reflexivity|].
+    split; [reflexivity|]. split; [exact Hds|]. right. split; [exact E|].
+    split; [|split; [exact Hcrc|exact Hc14]]. rewrite <- Hcrc in Hbs. unfold framed. rewrite <- app_assoc.
+    rewrite <- app_assoc in Hbs. rewrite <- E at 1. exact Hbs.
 Qed.
 
 Theorem encode_framing f be bs f' :
@@ -500,15 +524,16 @@ Theorem encode_framing f be bs f' :
   (hdrsize bs = 14 -> h_crc (f_header f') = hdrcrc bs /\ hdrcrc bs = arc (firstn 12 bs)).
 Proof.
   intros Hwf Henc Hlen.
-  destruct (encode_framed f be bs f' Hwf Henc Hlen) as (data & hc & crc & Hdata & Hdb & Hdl & Hb12 & Hhc & Hcrc & Hds & Hcase).
-  cbv zeta in *.
+  destruct (encode_framed f be bs f' Hwf Henc Hlen) as (data & hc & crc & Hdata & Hdb & Hdl & Hrest).
+  cbv zeta in Hrest. destruct Hrest as (Hb12 & Hhc & Hcrc & Hds & Hcase).
   remember (hdr12 (h_size (f_header f)) (h_proto (f_header f)) (h_profile (f_header f)) (N.of_nat (List.length data))) as b12 eqn:Eb.
   destruct Hcase as [(E & Hbs & Hc)|(E & Hbs & Hc & Hh)]; rewrite E in Eb.
   - assert (Hcl : crc < 65536) by (rewrite Hc; apply checksum_lt, is_bytes_app; assumption).
-    destruct (framed12 (h_proto (f_header f)) (h_profile (f_header f)) data crc Hdl Hcl) as (F1 & F2 & F3 & F4 & F5 & F6 & F7).
-    cbv zeta in *. rewrite <- Hbs in *. rewrite <- Eb in F7.
+    pose proof (framed12 (h_proto (f_header f)) (h_profile (f_header f)) data crc Hdl Hcl) as F.
+    cbv zeta in F. rewrite <- Hbs in F. rewrite <- Eb in F. destruct F as (F1 & F2 & F3 & F4 & F5 & F6 & F7).
     assert (Hall : is_bytes bs).
-    { rewrite Hbs. unfold framed. rewrite <- Eb. repeat apply is_bytes_app; try assumption; try constructor. apply put_le16_bytes. }
+    { rewrite Hbs. unfold framed. rewrite <- Eb. apply is_bytes_app; [apply is_bytes_app; [assumption|constructor]|].
+      apply is_bytes_app; [assumption|apply put_le16_bytes]. }
     split; [now apply forallb_is_bytes|].
     split.
     { unfold header_ok. cbv zeta. rewrite F1, F2, F4, F5.
@@ -519,11 +544,13 @@ Proof.
     split; [now rewrite F3|]. split; [now rewrite Hds, F2|]. split; [now rewrite F3, F2|]. split; [now rewrite F6|].
     intros H14. rewrite F1 in H14. discriminate.
   - assert (Hhl : hc < 65536) by (rewrite Hhc; now apply checksum_lt).
-    assert (Hcl : crc < 65536) by (rewrite Hc; apply checksum_lt; repeat apply is_bytes_app; try assumption; apply put_le16_bytes).
-    destruct (framed14 (h_proto (f_header f)) (h_profile (f_header f)) data hc crc Hdl Hhl Hcl) as (F1 & F2 & F3 & F4 & F5 & F6 & F7 & F8 & F9).
-    cbv zeta in *. rewrite <- Hbs in *. rewrite <- Eb in F7, F8.
+    assert (Hcl : crc < 65536).
+    { rewrite Hc. apply checksum_lt. apply is_bytes_app; [apply is_bytes_app; [assumption|apply put_le16_bytes]|assumption]. }
+    pose proof (framed14 (h_proto (f_header f)) (h_profile (f_header f)) data hc crc Hdl Hhl Hcl) as F.
+    cbv zeta in F. rewrite <- Hbs in F. rewrite <- Eb in F. destruct F as (F1 & F2 & F3 & F4 & F5 & F6 & F7 & F8 & F9).
     assert (Hall : is_bytes bs).
-    { rewrite Hbs. unfold framed. rewrite <- Eb. repeat apply is_bytes_app; try assumption; apply put_le16_bytes. }
+    { rewrite Hbs. unfold framed. rewrite <- Eb. apply is_bytes_app; [apply is_bytes_app; [assumption|apply put_le16_bytes]|].
+      apply is_bytes_app; [assumption|apply put_le16_bytes]. }
     assert (Harc : hc = arc b12) by (rewrite Hhc; now apply checksum_is_arc).
     split; [now apply forallb_is_bytes|].
     split.
@@ -533,7 +560,7 @@ Proof.
       destruct (hc =? 0); reflexivity. }
     split.
     { unfold trailer_ok. rewrite F6, F7. apply N.eqb_eq. rewrite Hc. apply checksum_is_arc.
-      repeat apply is_bytes_app; try assumption. apply put_le16_bytes. }
+      apply is_bytes_app; [apply is_bytes_app; [assumption|apply put_le16_bytes]|assumption]. }
     split; [now rewrite F3|]. split; [now rewrite Hds, F2|]. split; [now rewrite F3, F2|]. split; [now rewrite F6|].
     intros _. rewrite F9, F8. split; assumption.
 Qed.
